@@ -18,6 +18,15 @@ import (
 
 func init() { fw.RegisterMonitor("C07", "exploration", Run) }
 
+// devLimit: development aid (mutant runs): VERIF_C07_MAXCASES keeps the first n cases of a level.
+func devLimit(cases [][]byte) [][]byte {
+	var n int
+	if _, err := fmt.Sscan(os.Getenv("VERIF_C07_MAXCASES"), &n); err == nil && n > 0 && n < len(cases) {
+		return cases[:n]
+	}
+	return cases
+}
+
 func Run(c *fw.Ctx) {
 	c.Rule = "L1: PRNG store configurations (header v0/v1, embedded values on either side, truncated primary, external commit allowance, synced replica, skipIntegrityCheck, window) × PRNG delivery schedules of the primary's honest exports (concurrent batches in/out of order, gaps, duplicates, beyond-window, replica restarts quiescent/mid-flight, precommit discarding, a fork's diverging precommits) × structure-aware alterations of the wire bytes; an evaluation is one ReplicateTx outcome judged against the replica's frontier, one frontier/restart/discard check or one tx/key/proof compared at quiescence. L2: pkg/database primary with syncAcks=k and m replicas, harness-as-network; an evaluation is one acknowledged primary commit checked against the replicas' durable precommitted states, one replica-not-ahead check or one final comparison. distinct = level × delivery pattern × alteration class × outcome observed"
 	c.Assume("SHA-256 collision resistance; the primary's own headers and accumulated hashes are the reference")
@@ -36,6 +45,7 @@ func Run(c *fw.Ctx) {
 			}
 			cases = append(cases, b)
 		}
+		cases = devLimit(cases)
 		c.RunIsolated("c07-l1", cases, fw.CasesOpts{Workers: 14, CaseTimout: 10 * time.Minute})
 	}
 	if only == "" || strings.Contains(only, "l2") {
